@@ -7,12 +7,12 @@ import Bourse.Model.Ops
 namespace Bourse
 
 /-- The validity conditions quoted in the properties that matter for the invariant: order and
-modify volumes are at least 1. (Unknown ids and `u32` overflow are faults of the model.) -/
+modify volumes are at least 1, prices fit in 32 bits (they are `u32` in the Rust). (Unknown ids and `u32` overflow are faults of the model.) -/
 def ValidOp : Op → Prop
-  | .create _ vol _ _ => 0 < vol
-  | .cap _ vol _ _ => 0 < vol
-  | .modify _ _ nv => ∀ v, nv = some v → 0 < v
-  | .ev (.modify _ _ nv) => ∀ v, nv = some v → 0 < v
+  | .create _ vol _ p => 0 < vol ∧ ∀ q, p = some q → q ≤ MAXP
+  | .cap _ vol _ p => 0 < vol ∧ ∀ q, p = some q → q ≤ MAXP
+  | .modify _ np nv => (∀ v, nv = some v → 0 < v) ∧ ∀ q, np = some q → q ≤ MAXP
+  | .ev (.modify _ np nv) => (∀ v, nv = some v → 0 < v) ∧ ∀ q, np = some q → q ≤ MAXP
   | _ => True
 
 /-- `Inv` only looks at the table, the two sides, the stamp counter and the fault flag. -/
@@ -27,10 +27,10 @@ theorem Inv.congr {b b' : Book} (h : Inv b) (h1 : b'.orders = b.orders) (h2 : b'
 theorem inv_step {b : Book} (h : Inv b) (op : Op) (hv : ValidOp op) (hnf : (b.step op).1.faulted = false) :
     Inv (b.step op).1 := by
   cases op with
-  | create sd vol tr p => exact h.create sd vol tr p hv
+  | create sd vol tr p => exact h.create sd vol tr p hv.1 hv.2
   | place id => exact h.place id hnf
   | cap sd vol tr p =>
-    have hc := h.create sd vol tr p hv
+    have hc := h.create sd vol tr p hv.1 hv.2
     simp only [Book.step, Book.createAndPlace] at hnf ⊢
     split
     · rename_i id hid
@@ -38,12 +38,12 @@ theorem inv_step {b : Book} (h : Inv b) (op : Op) (hv : ValidOp op) (hnf : (b.st
       exact hc.place id hnf
     · exact hc
   | cancel id => exact h.cancel id hnf
-  | modify id p v => exact h.modify id p v hv hnf
+  | modify id p v => exact h.modify id p v hv.1 hv.2 hnf
   | ev e =>
     cases e with
     | new id => exact h.place id hnf
     | cancel id => exact h.cancel id hnf
-    | modify id p v => exact h.modify id p v hv hnf
+    | modify id p v => exact h.modify id p v hv.1 hv.2 hnf
   | time t => exact h.congr rfl rfl rfl rfl rfl
   | trading on => cases on <;> exact h.congr rfl rfl rfl rfl rfl
   | resetVol => exact h.congr rfl rfl rfl rfl rfl
